@@ -19,7 +19,7 @@ TECHNIQUE = 'symbolic execution of each decoder on all-symbolic octets with loop
 EXPLANATION = 'C11: all-symbolic short inputs per decoder under loop fuel.'
 BOUNDS = 'leaf decoders: every length 0..5 (quick) / 0..7 (thorough, less for the decoders whose path count explodes: see tmax); 57 BGP-LS TLV types x sub-length 0..16; Update.parse structured bodies'
 ASSUMPTIONS = ['loop fuel 2*len+8 iterations per loop site is the unwinding bound', 'inputs longer than the stated octet bounds are not covered']
-BUDGET = {'quick': 330, 'thorough': 2400}
+BUDGET = {'quick': 330, 'thorough': 4800}
 
 
 def _decoders():
